@@ -918,6 +918,12 @@ func main() {
 		corpus := append(hxreader.Corpus(4000), hxreader.Extra...)
 		thorough := o.Tier == "thorough"
 		var t totals
+		// pinned regression inputs first: every seed and tier
+		for _, it := range hxreader.Regress("c09") {
+			for _, l := range it.Langs {
+				searchOne(&t, it.Src, l)
+			}
+		}
 		for _, in := range corpus {
 			for _, l := range hxreader.Langs {
 				searchOne(&t, in, l)
